@@ -301,6 +301,44 @@ def generate_herds(n, seed, first_id, debug_storm=False):
     return scen
 
 
+def sameoffer_part(chk, owner, n, seed):
+    """Herds in which all client polls are byte-identical (one offer text, one NAT type, one fingerprint,
+    one encoding): each is still a request of its own.  They run in processes of their own (nothing they
+    do can be attributed by content) and TLC judges the outcome counts (TOutcome of Broker_Trace)."""
+    rng = random.Random(seed * 15485863 + 11)
+    herds = generate_herds(n, seed + 5, 300001)
+    for h in herds:
+        via = rng.choice(["amp", "amp", "post", "legacy"])
+        nat = rng.choice(["restricted", "unknown", "unrestricted"])
+        for st in h["steps"]:
+            for it in (st[1] if st[0] == "Wave" else [st]):
+                if it[0] == "ClientMatch":
+                    it[2], it[3] = nat, "default"
+        h["via"] = {c: via for c in h["via"]}
+        h["sameoffers"], h["oddtext"], h["rollover"], h["fresh"] = True, False, False, True
+        h["bridges"] = ["default", "b2"]
+    by_sc, _ = run_rig(chk, herds, shards=min(4, max(1, n // 6)), tag="same", fresh_each=True)
+    reduced = {}
+    for sid, evs in by_sc.items():
+        out = [e for e in evs if e["ev"] == "outcome"]
+        end = [e for e in evs if e["ev"] == "end"]
+        if not out or not end or end[0]["pending"]:
+            continue       # hangs are reported by the ordinary herds (C04)
+        reduced[sid] = [dict(e, fresh=True) for e in evs if e["ev"] == "reset"][:1] + out[:1]
+    chk.cov["evaluations"] += len(herds)
+    if len(reduced) < max(1, n // 2):
+        raise vlib.Inconclusive("only %d of %d same-offer herds completed" % (len(reduced), n))
+    findings, accepted = validate(chk, reduced)
+    chk.cov["traces_validated_against_impl"] += accepted
+    by_id = {h["id"]: h for h in herds}
+    for sid, kind, ev in findings:
+        if owner == "C02":
+            chk.violation("C02/identical-polls:" + kind, "byte-identical client polls were not treated as separate requests: %s" % json.dumps(ev),
+                          {"scenario": by_id[sid], "events": by_sc[sid]})
+        else:
+            chk.note("finding owned by C02 (not reported here): identical polls, %s" % kind)
+
+
 ORDER = []     # scenario ids in execution order (shard after shard) of the last run_rig call
 CROSS = []     # shard inputs whose process died because a channel outlived its scenario (fake-clock bubble)
 STUCK = []     # (scenario id, goroutine dump, shard input) of rig processes stopped by the watchdog
@@ -653,6 +691,8 @@ def pipeline(chk, owner, tier, seed, counts=None, herds=None, do_mc=True, mc_onl
                           {"scenario": by_id[sid], "events": by_sc[sid]})
         else:
             chk.note("finding owned by %s (not reported here): %s in scenario %s" % (own, kind, sid))
+    if owner == "C02":
+        sameoffer_part(chk, owner, 16 if q_ else 120, seed)
     chk.cov["rule"] = ("behaviours: tlc -simulate of spec/Broker generation configs (gated replay) plus seeded same-instant herds; "
                        "non-trivial = contains a proxy/client timer expiry or a herd wave or more than one answer; distinct by step list")
     chk.assumptions += ["fake clock of testing/synctest (go1.26.8, asynctimerchan=0): time advances only when every goroutine is blocked",
@@ -672,6 +712,16 @@ def replay(chk, owner, path):
     if end and end[0]["pending"]:
         if owner == "C04":
             chk.violation("C04/" + hang_signature(evs, end[0]["pending"]), "requests %s never returned" % end[0]["pending"], {"scenario": sc, "events": evs})
+        return
+    if sc.get("sameoffers"):
+        # byte-identical client polls: only the outcome counts are judged (TOutcome)
+        evs_full = evs
+        evs = [dict(e, fresh=True) for e in evs if e["ev"] == "reset"][:1] + [e for e in evs if e["ev"] == "outcome"][:1]
+        findings, accepted = validate(chk, {sc["id"]: evs})
+        chk.cov["traces_validated_against_impl"] += accepted
+        for sid, kind, ev in findings:
+            chk.violation("C02/identical-polls:" + kind, "byte-identical client polls were not treated as separate requests: %s" % json.dumps(ev),
+                          {"scenario": sc, "events": evs_full})
         return
     findings, accepted = validate(chk, {sc["id"]: evs})
     chk.cov["traces_validated_against_impl"] += accepted
